@@ -189,11 +189,13 @@ var plans = map[string]Plan{
 			{Harness: "hctx", Config: "default", Race: true, Quick: 2000, Thorough: 100000, QuickSec: 40, ThoroughSec: 600},
 			// cancellation while a read or seek of the ctx reader is in flight (race mode)
 			{Harness: "hio", Config: "errors", Race: true, Quick: 1500, Thorough: 60000, QuickSec: 40, ThoroughSec: 400},
+			// liveness: a cancelled evaluation blocked in a read of a stalled device comes back
+			{Harness: "hstall", Config: "default", Quick: 6000, Thorough: 600000, QuickSec: 10, ThoroughSec: 200},
 			// system tier: whole fq in REPL / CLI mode under interrupts
 			{Harness: "hrepl", Config: "default", Quick: 500, Thorough: 40000, QuickSec: 40, ThoroughSec: 900, MemGB: 8},
 			{Harness: "hrepl", Config: "default", Race: true, Quick: 60, Thorough: 3000, QuickSec: 40, ThoroughSec: 600},
 		},
-		Rule: "component tier: one run = a tape-drawn list of 3..12 push/finish/observe/write/stop operations by an evaluator task against 0..3 interrupts by an interrupter task, scheduled at statement level (policy drawn per run) over the real ctxstack; oracle: history linearizable (porcupine) against a stack-of-contexts model, no panic in any task, no deadlock, no race report in race mode; distinct = distinct schedule fingerprint (FNV of the event log); non-trivial = at least two recorded operations. hio race stage: cancellation while a read or seek of the ctx reader is in flight. system tier (hrepl): the whole of fq in REPL mode (fq -i, nested repl, multi-output lines each value displayed in a sub-evaluation, ^C at the prompt, ^D) or as one CLI evaluation, with 0..3 interrupts sent through the 1-buffered interrupt channel at tape-chosen OS events; reference = the same session without interrupts; oracle: per line (context-free lines, reference output known by text) the output is the reference with at most one contiguous piece removed per delivered interrupt not yet accounted for, lines evaluated before the first interrupt are exact, Main returns, no panic, no deadlock; race build of the same sessions",
+		Rule: "stalled device (hstall): a reader task does 3..7 reads and seeks through ctxreadseeker over a device that stalls at one drawn call and answers only after the caller is back, an interrupter cancels the context after 0..119 steps; oracle: the simulation does not deadlock (the cancelled call returns with the context error while the device still stalls), data returned before that is the device's || component tier: one run = a tape-drawn list of 3..12 push/finish/observe/write/stop operations by an evaluator task against 0..3 interrupts by an interrupter task, scheduled at statement level (policy drawn per run) over the real ctxstack; oracle: history linearizable (porcupine) against a stack-of-contexts model, no panic in any task, no deadlock, no race report in race mode; distinct = distinct schedule fingerprint (FNV of the event log); non-trivial = at least two recorded operations. hio race stage: cancellation while a read or seek of the ctx reader is in flight. system tier (hrepl): the whole of fq in REPL mode (fq -i, nested repl, multi-output lines each value displayed in a sub-evaluation, ^C at the prompt, ^D) or as one CLI evaluation, with 0..3 interrupts sent through the 1-buffered interrupt channel at tape-chosen OS events; reference = the same session without interrupts; oracle: per line (context-free lines, reference output known by text) the output is the reference with at most one contiguous piece removed per delivered interrupt not yet accounted for, lines evaluated before the first interrupt are exact, Main returns, no panic, no deadlock; race build of the same sessions",
 		Real: []string{"internal/ctxstack (statement-level yields)", "internal/iox.CtxWriter", "context", "internal/ctxreadseeker (hio race stage)", "the whole of fq incl. repl.jq, interp.go Eval/interruptStack (hrepl)"},
 		Stub: []string{"trigger source (1-buffered interrupt channel as in pkg/cli)", "scheduler", "io.Discard sink", "simulated OS with scripted readline (hrepl)"},
 		Assumptions: append([]string{
